@@ -2,7 +2,7 @@
 """run the registered quick check of a seeded change's property against /repo with the change applied,
 then undo the change; record the outcome in seeded/<id>/meta.json"""
 import sys, os, json, subprocess, time
-ids = sys.argv[1:] or sorted(os.listdir("/verif/seeded"))
+ids = sys.argv[1:] or sorted(x for x in os.listdir("/verif/seeded") if not x.startswith("_"))
 for mid in ids:
     d = f"/verif/seeded/{mid}"
     meta = json.load(open(f"{d}/meta.json"))
